@@ -30,12 +30,12 @@ MANIFEST = dict(
          "every integer n and from_unixtime(unixtime(t)) = t on µs-aligned instants (exact rational arithmetic, no "
          "range limits), coth(acoth x) = x for |x| > 1, acoth(coth x) = x for x <> 0, cot(acot x) = x for x <> 0, "
          "sech(asech x) = x for 0 < x <= 1, csch(acsch x) = x for x <> 0, secant(arcsecant x) = x and csc(acsc x) = x for "
-         "|x| >= 1, sqrt(sqr x) = x and sqr(sqrt x) = x for x >= 0 over "
+         "|x| >= 1, sqrt(sqr x) = x and sqr(sqrt x) = x for x >= 0, cbrt(x^3) = x for x <> 0 over "
          "the reals (stdlib real-number axioms), and for the hand-ported _mixed_unit_list: the parts add up to the "
          "value, there is one part per unit and all but the last are whole multiples of their unit, for arbitrary unit lists "
          "(C23_mixed_sum, C23_mixed_whole) and for unit_list with its unique/sort-descending cleaning (C23_unit_list). NOT proved "
          "(oracle/correspondence only): floating-point behaviour (tolerances), the FFI pairs sin/asin, cos/acos, "
-         "tan/atan, sinh/asinh, cosh/acosh, tanh/atanh, exp/ln, log10, log2, sqrt/sqr, cbrt, "
+         "tan/atan, sinh/asinh, cosh/acosh, tanh/atanh, exp/ln, log10, log2, "
          "the jiff calendar behind DateTime; the FFI pairs are oracle-only by nature (libm).",
     design_ref="DESIGN.md §6 C23; design/misc.md",
     note="Trusted: Coq kernel; the translator tools/props/c23.py + nbtexpr.py (its output is compared with the running "
@@ -47,7 +47,7 @@ MANIFEST = dict(
 
 THEOREMS = ["C23_celsius", "C23_fahrenheit", "C23_julian", "C23_unixtime_int", "C23_unixtime_aligned",
             "C23_coth_acoth", "C23_acoth_coth", "C23_cot_acot", "C23_sech_asech", "C23_csch_acsch",
-            "C23_sec_arcsec", "C23_csc_acsc", "C23_sqrt_sqr", "C23_mixed_sum", "C23_mixed_whole", "C23_unit_list"]
+            "C23_sec_arcsec", "C23_csc_acsc", "C23_sqrt_sqr", "C23_cbrt_cube", "C23_mixed_sum", "C23_mixed_whole", "C23_unit_list"]
 ALLOWED_AXIOMS = ["ClassicalDedekindReals.sig_forall_dec", "ClassicalDedekindReals.sig_not_dec",
                   "FunctionalExtensionality.functional_extensionality_dep", "Classical_Prop.classic"]
 # common.print_assumptions reads the header line "Axioms:" as a name and misses names whose type starts on the
@@ -65,7 +65,7 @@ Q_SOURCES = [
     ("datetime/julian_date.nbt", ["_julian_epoch", "julian_date", "J2000", "from_julian_date"]),
 ]
 R_SOURCES = [
-    ("core/functions.nbt", ["sqrt", "sqr"]),
+    ("core/functions.nbt", ["sqrt", "cbrt", "sqr"]),
     ("math/trigonometry_extra.nbt", ["cot", "acot", "coth", "acoth", "secant", "arcsecant", "cosecant", "csc", "acsc",
                                      "sech", "asech", "csch", "acsch"]),
 ]
@@ -166,8 +166,14 @@ class Lib:
                     return "(%s ^ %d)" % (t(x), y[1].numerator)
                 if target == "R" and y == ("bin", "/", ("num", Fraction(1)), ("num", Fraction(2))):
                     return "(sqrt %s)" % t(x)          # x^(1/2), the definition of core::functions::sqrt
+                if target == "R" and y[0] == "bin" and y[1] == "/" and y[2][0] == "num" and y[3][0] == "num":
+                    return "(Rpower %s %s)" % (t(x), t(y))       # other constant rational exponents
                 raise Unsupported("power %r" % (a,))
             return "(%s %s %s)" % (t(x), op, t(y))
+        if k == "if" and target == "R" and a[1][0] == "cmp" and a[1][1] in ("<", ">"):
+            c = a[1]
+            lo, hi = (c[2], c[3]) if c[1] == "<" else (c[3], c[2])
+            return "(if Rlt_dec %s %s then %s else %s)" % (t(lo), t(hi), t(a[2]), t(a[3]))
         if k == "conv":
             x, y = a[1], a[2]
             if self.is_unit(y):
@@ -228,6 +234,11 @@ class Lib:
                 return x / y
             if op == "^":
                 return x ** y
+        if k == "if":
+            c = a[1]
+            l, r = e(c[2]), e(c[3])
+            holds = {"<": l < r, ">": l > r, "<=": l <= r, ">=": l >= r}[c[1]]
+            return e(a[2]) if holds else e(a[3])
         if k == "conv":
             if self.is_unit(a[2]):
                 return e(a[1])
@@ -384,6 +395,8 @@ def gen_model_cases(rng, lib, n):
         w = rng.uniform(0, 1e6)
         cs.append(("scalar", "sqrt", "sqrt(%s)" % fl(w), w))
         cs.append(("scalar", "sqr", "sqr(%s)" % fl(x), x))
+        v = rng.choice([-1, 1]) * rng.uniform(1e-3, 1e6)
+        cs.append(("scalar", "cbrt", "cbrt(%s)" % fl(v), v))
         z = rng.uniform(0.01, 1.0)
         cs.append(("scalar", "asech", "asech(%s)" % fl(z), z))
     return cs
